@@ -103,7 +103,7 @@ static WSpec randomWitness(Rng& R, double T) {
     w.a = w.b = w.s = 0;
     if (w.kind == 0) w.a = T * (0.05 + 0.9 * R.u());
     else if (w.kind == 1) { w.a = T * (0.05 + 0.9 * R.u()); w.b = T * (0.05 + 0.9 * R.u()); w.s = R.p(0.5) ? 1.0 : -1.0; }
-    else { w.a = (2 + 10 * R.u()) / T; w.b = 6 * R.u(); w.s = 0.8 * (R.u() - 0.5); }
+    else { w.a = (2 + 40 * R.u()) / T; w.b = 6 * R.u(); w.s = 0.8 * (R.u() - 0.5); }
     int m = R.k(4); w.rising = (m != 1); w.falling = (m != 2); if (m == 3 && R.p(0.3)) { w.rising = w.falling = false; }
     static const double wins[] = {0.1, 0.01, 1.0, 0.5, 1e-3};
     w.window = wins[R.k(5)];
@@ -221,10 +221,15 @@ static void modeLoc(unsigned long long seed, int nscen) {
     Rng R{seed * 0x2545F4914F6CDD1DULL + 13};
     for (int sc = 0; sc < nscen; ++sc) {
         int kind = sc % 8;                       // the eight AbstractIntegratorRep integrators
-        Sys S; int nw = 1 + R.k(4);
+        Sys S; int nw = 1 + R.k(6);
         const double T = 1.0;
         std::vector<WSpec> ws;
-        for (int i = 0; i < nw; ++i) { ws.push_back(randomWitness(R, T)); S.system.addEventHandler(new TimeWitness(ws.back())); }
+        for (int i = 0; i < nw; ++i) {
+            WSpec w = randomWitness(R, T);
+            if (i > 0 && R.p(0.3)) {            // simultaneous crossing: same function as an earlier witness, own mask/window/stage
+                const WSpec& o = ws[R.k(i)]; w.kind = o.kind; w.a = o.a; w.b = o.b; w.s = (o.kind == 1 && R.p(0.5)) ? -o.s : o.s; }
+            ws.push_back(w); S.system.addEventHandler(new TimeWitness(ws.back()));
+        }
         State s = S.system.realizeTopology(); S.system.realizeModel(s);
         S.b->setOneU(s, 0, 1.0);
         const double hs[] = {1.0/64, 1.0/16, 0.013, 0.1, 0.003, 0.25};
@@ -414,6 +419,68 @@ static void modeTs(unsigned long long seed, int nscen, bool reportAll) {
     }
 }
 
+
+// ---------------------------------------------------------------------------------------------- two subsystems with scheduled events
+// A second subsystem owning one scheduled event at time `at`; the default subsystem owns a list-scheduled handler.
+class SubGuts : public Subsystem::Guts {
+public:
+    explicit SubGuts(double at) : Subsystem::Guts("C22sub", "0.0.1"), at(at) {}
+    Subsystem::Guts* cloneImpl() const override { return new SubGuts(*this); }
+    int realizeSubsystemTopologyImpl(State& s) const override { createScheduledEvent(s, id); return 0; }
+    void calcTimeOfNextScheduledEventImpl(const State& s, Real& tNext, Array_<EventId>& ids, bool incl) const override {
+        // same loop as DefaultSystemSubsystem::Guts::calcTimeOfNextScheduledEventImpl for a single handler whose
+        // getNextEventTime is `at` while it is still due and Infinity afterwards
+        const Real time = (at > s.getTime() || (incl && at == s.getTime())) ? at : Infinity;
+        tNext = Infinity;
+        if (time <= tNext && (time > s.getTime() || (incl && time == s.getTime()))) { tNext = time; ids.push_back(id); }
+    }
+    void handleEventsImpl(State& s, Event::Cause, const Array_<EventId>&, const HandleEventsOptions&, HandleEventsResults& r) const override {
+        printf("H sub S %a\n", s.getTime());
+        r.setExitStatus(HandleEventsResults::Succeeded);
+    }
+    mutable EventId id; double at;
+};
+class SubHandle : public Subsystem { public:
+    SubHandle(System& sys, double at) { adoptSubsystemGuts(new SubGuts(at)); sys.adoptSubsystem(*this); } };
+
+static void modeSub2(unsigned long long seed, int n) {
+    Rng R{seed * 0x2545F4914F6CDD1DULL + 19};
+    for (int c = 0; c < n; ++c) {
+        Sys S;
+        int ndef = 1 + R.k(2), nsub = 1 + R.k(3);
+        std::vector<HSpec> hs; std::vector<double> subT;
+        for (int i = 0; i < ndef; ++i) { HSpec h; h.cls = 1; h.action = 0; h.interval = 0; int nt = 1 + R.k(2);
+            for (int k = 0; k < nt; ++k) h.times.push_back(std::ldexp((double)(1 + R.k(16)), -4));
+            std::sort(h.times.begin(), h.times.end()); hs.push_back(h); }
+        for (int j = 0; j < nsub; ++j) subT.push_back(std::ldexp((double)(1 + R.k(16)), -4));
+        if (c == 0) { ndef = 1; nsub = 1; hs.resize(1); hs[0].times.assign(1, 0.5); subT.assign(1, 0.3125); }       // the witness of the Coq theorem
+        if (c == 1) { ndef = 1; nsub = 1; hs.resize(1); hs[0].times.assign(1, 0.3125); subT.assign(1, 0.5); }
+        for (int i = 0; i < ndef; ++i) S.system.addEventHandler(new ListH(S, i, hs[i]));
+        std::vector<std::unique_ptr<SubHandle>> subs;
+        for (int j = 0; j < nsub; ++j) subs.emplace_back(new SubHandle(S.system, subT[j]));
+        State s = S.system.realizeTopology(); S.system.realizeModel(s);
+        S.b->setOneU(s, 0, 1.0);
+        printf("SUBCASE %d", ndef);
+        for (int i = 0; i < ndef; ++i) { printf(" %d", (int)hs[i].times.size()); for (double x : hs[i].times) printf(" %a", x); }
+        printf(" %d", nsub); for (double x : subT) printf(" %a", x);
+        printf("\n");
+        for (int q = 0; q < 5; ++q) {
+            double t = (c < 2 && q == 0) ? 0.0 : (c < 2 && q == 1) ? 0.3125 : std::ldexp((double)R.k(17), -4); bool incl = (c < 2) ? (q == 0) : R.p(0.5);
+            s.setTime(t); S.system.realize(s, Stage::Time);
+            Real tn; Array_<EventId> ids;
+            S.system.calcTimeOfNextScheduledEvent(s, tn, ids, incl);
+            printf("NEXT %a %d %a %d", t, (int)incl, tn, (int)ids.size()); for (auto id : ids) printf(" %d", (int)id); printf("\n");
+        }
+        if (c < 2) {        // full TimeStepper run: who is called when
+            s.setTime(0); RungeKuttaMersonIntegrator integ(S.system);
+            TimeStepper ts(S.system, integ);
+            ts.initialize(s);
+            ts.stepTo(0.75);
+            printf("ENDRUN %a\n", integ.getTime());
+        }
+    }
+}
+
 int main(int argc, char** argv) {
     std::string mode = argc > 1 ? argv[1] : "table";
     unsigned long long seed = argc > 2 ? strtoull(argv[2], 0, 10) : 1;
@@ -424,6 +491,7 @@ int main(int argc, char** argv) {
     else if (mode == "fec") modeFec(seed, n);
     else if (mode == "loc") modeLoc(seed, n);
     else if (mode == "ts") modeTs(seed, n, argc > 4 && atoi(argv[4]) != 0);
+    else if (mode == "sub2") modeSub2(seed, n);
     else { fprintf(stderr, "unknown mode\n"); return 2; }
     return 0;
 }
